@@ -13,5 +13,5 @@ timeout 3000 make -j16 2>&1 | tail -15
 cd Extract
 timeout 600 coqc -R .. Tx Extract.v
 timeout 600 ocamlfind ocamlopt -O3 -w -a modelrun_core.mli modelrun_core.ml driver.ml -o ../../bin/modelrun
-echo '(1 "612e62")' | ../../bin/modelrun
+echo '(18 "612e62")' | ../../bin/modelrun
 echo setup ok
